@@ -57,8 +57,11 @@ inductive Shape where
 inductive Binding where
   /-- a builtin `list` / `dict` / `set` -/
   | plain
-  /-- a `Trait*Object` after `__setstate__`: `object()` is None and `trait` is None -/
-  | detached
+  /-- a `Trait*Object` after `__setstate__`: `object()` is None and `trait` is None.
+  `__getstate__` keeps the validator attributes (`item_validator`, …), which are bound methods of
+  the SOURCE container: `via = some (object, trait)` of that source when `copy.copy` kept the method
+  itself, `none` after pickling (the method then belongs to an unpickled, ownerless twin). -/
+  | detached (via : Option (Option Nat × Shape))
   /-- `Trait*Object(trait, None, name, …)`, what `__deepcopy__` builds -/
   | ownerless (sh : Shape)
   /-- `Trait*Object(trait, o, name, …)` -/
@@ -165,7 +168,20 @@ builds: `__getstate__` drops `object` and `trait`, `__setstate__` puts
 `lambda: None` and `None` (trait_list_object.py:822-850 and siblings). -/
 def Binding.afterSetstate : Binding → Binding
   | .plain => .plain
-  | _ => .detached
+  | _ => .detached none
+
+/-- The (object, trait) pair the container's item validators consult. -/
+def Binding.rule : Binding → Option (Option Nat × Shape)
+  | .plain => none
+  | .detached via => via
+  | .ownerless sh => some (none, sh)
+  | .bound o sh => some (some o, sh)
+
+/-- Binding of `copy.copy(x)`: `__setstate__` as above, but the validator
+attributes are the very bound methods of `x`. -/
+def Binding.afterCopy : Binding → Binding
+  | .plain => .plain
+  | b => .detached b.rule
 
 mutual
 /-- `pickle.loads(pickle.dumps(v))` of a value. -/
@@ -182,10 +198,28 @@ def pickleL (n : Nat) : List CVal → List CVal × Nat
     (r.1 :: rs.1, rs.2)
 end
 
-/-- `copy.copy(v)`: a new outer container with the same items. -/
-def shallowV (n : Nat) : CVal → CVal × Nat
-  | .leaf a => (.leaf a.copied, n)
-  | .node k _ b keys kids => (.node k n b.afterSetstate keys kids, n + 1)
+/-- `copy.copy(v)`: a new outer container (via `__reduce_ex__`, `__setstate__`)
+filled with the same items.  A list / dict subclass is refilled through
+`append` / `__setitem__`, i.e. through the validator attributes just restored -
+the SOURCE's bound methods: while the source's owner is alive every item is
+validated again, and container items are re-built (bound to that owner).
+A set is refilled by `set.__init__`, without validation. -/
+def shallowV (E : Env) (n : Nat) : CVal → Except Exc (CVal × Nat)
+  | .leaf a => .ok (.leaf a.copied, n)
+  | .node k _ b keys kids =>
+    match k, b.rule with
+    | .lst, some (some o, .cont _ _ iT _ _) =>
+      match validateL E o iT (n + 1) kids with
+      | .error e => .error e
+      | .ok (kids', n') => .ok (.node k n b.afterCopy keys kids', n')
+    | .dct, some (some o, .cont _ kT iT _ _) =>
+      match valLeaves E kT keys with
+      | .error e => .error e
+      | .ok keys' =>
+        match validateL E o iT (n + 1) kids with
+        | .error e => .error e
+        | .ok (kids', n') => .ok (.node k n b.afterCopy keys' kids', n')
+    | _, _ => .ok (.node k n b.afterCopy keys kids, n + 1)
 
 mutual
 /-- `copy.deepcopy(v)`.  `Trait*Object.__deepcopy__` builds
@@ -200,7 +234,7 @@ def deepcopyV (n : Nat) : CVal → Except Exc (CVal × Nat)
     | .ok (kids', n') =>
       match b with
       | .plain => .ok (.node k n .plain (keys.map Leaf.copied) kids', n')
-      | .detached => .error .attributeError
+      | .detached _ => .error .attributeError
       | .ownerless sh => .ok (.node k n (.ownerless sh) (keys.map Leaf.copied) kids', n')
       | .bound _ sh => .ok (.node k n (.ownerless sh) (keys.map Leaf.copied) kids', n')
 def deepcopyL (n : Nat) : List CVal → Except Exc (List CVal × Nat)
@@ -368,20 +402,20 @@ def effMode (md arg : Option CopyMode) : CopyMode :=
     | _ => .ref
 
 /-- The value handed to `setattr(self, name, value)` for one trait. -/
-def copyValue (mode : CopyMode) (n : Nat) (v : CVal) : Except Exc (CVal × Nat) :=
+def copyValue (E : Env) (mode : CopyMode) (n : Nat) (v : CVal) : Except Exc (CVal × Nat) :=
   match mode with
   | .ref => .ok (v, n)
-  | .shallow => .ok (shallowV n v)
+  | .shallow => shallowV E n v
   | .deep => deepcopyV n v
 
 /-- One iteration of the loop of `copy_traits`: any exception is swallowed by
 the bare `except:` and the name is reported as unassignable (slot untouched). -/
-def cloneSlot (E : Env) (oSrc oDst : Nat) (arg : Option CopyMode) (n : Nat) (src : Slot) :
+def cloneSlot (E : Env) (oSrc oDst : Nat) (arg : Option CopyMode) (all : Bool) (n : Nat) (src : Slot) :
     Slot × Slot × Nat :=
   let dst : Slot := ⟨src.decl, none⟩
-  if src.decl.copyable then
+  if src.decl.copyable || (all && src.decl.kind != .event) then
     let r := readSlot E oSrc n src
-    match copyValue (effMode src.decl.copy arg) r.2.2 r.1 with
+    match copyValue E (effMode src.decl.copy arg) r.2.2 r.1 with
     | .error _ => (dst, r.2.1, r.2.2)
     | .ok (v, n1) =>
       match assignSlot E oDst n1 dst v with
@@ -389,17 +423,23 @@ def cloneSlot (E : Env) (oSrc oDst : Nat) (arg : Option CopyMode) (n : Nat) (src
       | .ok (dst', n2) => (dst', r.2.1, n2)
   else (dst, src, n)
 
-def cloneL (E : Env) (oSrc oDst : Nat) (arg : Option CopyMode) : Nat → List Slot → List Slot × List Slot × Nat
+def cloneL (E : Env) (oSrc oDst : Nat) (arg : Option CopyMode) (all : Bool) :
+    Nat → List Slot → List Slot × List Slot × Nat
   | n, [] => ([], [], n)
   | n, sl :: sls =>
-    let r := cloneSlot E oSrc oDst arg n sl
-    let rs := cloneL E oSrc oDst arg r.2.2 sls
+    let r := cloneSlot E oSrc oDst arg all n sl
+    let rs := cloneL E oSrc oDst arg all r.2.2 sls
     (r.1 :: rs.1, r.2.1 :: rs.2.1, rs.2.2)
+
+/-- has_traits.py:1583-1586: `clone_traits` hands `copy_traits` the list of copyable names;
+`copy_traits` takes an EMPTY list to mean "all" (`len(traits) == 0`), so an object none of whose
+traits is copyable gets every trait copied, transient ones included. -/
+def copiesAll (slots : List Slot) : Bool := !(slots.any (fun sl => sl.decl.copyable))
 
 /-- `obj.clone_traits(copy=arg)`; `copy.deepcopy(obj)` is `clone_traits` with
 `copy=memo.get("traits_copy_mode")`, i.e. `None` at top level (has_traits.py:1686-1693). -/
 def cloneTraits (E : Env) (s : Obj) (o' : Nat) (arg : Option CopyMode) (n : Nat) : Copied :=
-  let r := cloneL E s.oid o' arg n s.slots
+  let r := cloneL E s.oid o' arg (copiesAll s.slots) n s.slots
   ⟨⟨o', r.1⟩, ⟨s.oid, r.2.1⟩, r.2.2⟩
 
 def deepcopyObj (E : Env) (s : Obj) (o' : Nat) (n : Nat) : Copied := cloneTraits E s o' none n
@@ -427,42 +467,40 @@ def rawAdd (k : Kind) (i : Nat) (b : Binding) (keys : List Leaf) (kids : List CV
   | .dct => let r := putKV keys kids key item; .node k i b r.1 r.2
   | .st => .node k i b (addKey keys key) kids
 
+/-- `_validate_length(len(self) + 1)` (trait_list_object.py:872-902): needs only `self.trait`. -/
+def lengthOk (k : Kind) (b : Binding) (newLen : Nat) : Bool :=
+  match k, b with
+  | .lst, .ownerless (.cont _ _ _ _ hi) => newLen ≤ hi
+  | .lst, .bound _ (.cont _ _ _ _ hi) => newLen ≤ hi
+  | _, _ => true
+
 /-- The node's own rule for a new item (`_item_validator` / `_key_validator` /
-`_value_validator` / `_validator` of the three object classes). -/
+`_value_validator` / `_validator` of the three object classes): lists and dicts
+validate only while `object()` is alive; sets validate whenever they have the
+trait (trait_set_object.py:483-506). -/
 def nodeAdd (E : Env) (n : Nat) (k : Kind) (i : Nat) (b : Binding) (keys : List Leaf) (kids : List CVal)
     (key : Leaf) (item : CVal) : Except Exc (CVal × Nat) :=
-  match b with
-  | .plain | .detached => .ok (rawAdd k i b keys kids key item, n)
-  | .ownerless sh =>
-    -- list / dict: `object is None` ⇒ no validation; set: validates with object None
-    match k, sh with
-    | .st, .cont _ kT _ _ _ =>
-      match E.lv kT key with
-      | .error e => .error e
-      | .ok key' => .ok (rawAdd k i b keys kids key' item, n)
-    | _, _ => .ok (rawAdd k i b keys kids key item, n)
-  | .bound o sh =>
-    match sh with
-    | .cont _ kT iT _ hi =>
-      match k with
-      | .lst =>
-        -- trait_list_object.py: `_validate_length(len(self) + 1)`, then the item validator
-        if kids.length + 1 > hi then .error .traitError
-        else
-          match validate E o iT n item with
-          | .error e => .error e
-          | .ok (item', n') => .ok (rawAdd k i b keys kids key item', n')
-      | .dct =>
+  if !lengthOk k b (kids.length + 1) then .error .traitError
+  else
+    match b.rule with
+    | some (owner, .cont _ kT iT _ _) =>
+      match k, owner with
+      | .st, _ =>
+        match E.lv kT key with
+        | .error e => .error e
+        | .ok key' => .ok (rawAdd k i b keys kids key' item, n)
+      | .lst, some o =>
+        match validate E o iT n item with
+        | .error e => .error e
+        | .ok (item', n') => .ok (rawAdd k i b keys kids key item', n')
+      | .dct, some o =>
         match E.lv kT key with
         | .error e => .error e
         | .ok key' =>
           match validate E o iT n item with
           | .error e => .error e
           | .ok (item', n') => .ok (rawAdd k i b keys kids key' item', n')
-      | .st =>
-        match E.lv kT key with
-        | .error e => .error e
-        | .ok key' => .ok (rawAdd k i b keys kids key' item, n)
+      | _, none => .ok (rawAdd k i b keys kids key item, n)
     | _ => .ok (rawAdd k i b keys kids key item, n)
 
 mutual
